@@ -264,6 +264,44 @@ pub fn run(rt: &tokio::runtime::Runtime, cols: &[&str]) -> Value {
                 }
             }, json!({"bad_case": format!("unknown field type {}", cols[1])}))
         }
+        // header codecs and block extraction
+        "hdr1" => {
+            let t = unhex_str(cols[1]).unwrap_or_default();
+            match swift_mt_message::BasicHeader::parse(&t) {
+                Ok(h) => json!({"ok": true, "display": h.to_string(), "sender_bic": h.sender_bic, "json": serde_json::to_value(&h).unwrap_or(Value::Null)}),
+                Err(e) => err_json(&e),
+            }
+        }
+        "hdr2" => {
+            let t = unhex_str(cols[1]).unwrap_or_default();
+            match swift_mt_message::ApplicationHeader::parse(&t) {
+                Ok(h) => json!({"ok": true, "display": h.to_string(), "message_type": h.message_type(), "json": serde_json::to_value(&h).unwrap_or(Value::Null)}),
+                Err(e) => err_json(&e),
+            }
+        }
+        "hdr3" => {
+            let t = unhex_str(cols[1]).unwrap_or_default();
+            match swift_mt_message::UserHeader::parse(&t) {
+                Ok(h) => json!({"ok": true, "display": h.to_string(), "json": serde_json::to_value(&h).unwrap_or(Value::Null)}),
+                Err(e) => err_json(&e),
+            }
+        }
+        "hdr5" => {
+            let t = unhex_str(cols[1]).unwrap_or_default();
+            match swift_mt_message::Trailer::parse(&t) {
+                Ok(h) => json!({"ok": true, "display": h.to_string(), "json": serde_json::to_value(&h).unwrap_or(Value::Null)}),
+                Err(e) => err_json(&e),
+            }
+        }
+        "blocks" => {
+            let t = unhex_str(cols[1]).unwrap_or_default();
+            let v: Vec<Value> = (1u8..=5).map(|i| match SwiftParser::extract_block(&t, i) {
+                Ok(Some(b)) => json!(b),
+                Ok(None) => Value::Null,
+                Err(e) => json!({"err": e.to_string()}),
+            }).collect();
+            json!({"ok": true, "blocks": v})
+        }
         // amount <hex text>: swift_utils::parse_amount, the f64's bits, format_swift_amount for 0..4 decimals
         "amount" => {
             let t = unhex_str(cols[1]).unwrap_or_default();
